@@ -37,6 +37,50 @@ def real_validate_many(items):
     return out
 
 
+def real_validate_chunks(items):
+    """items: lists of chunks fed to ONE validator one after the other; returns per item the list of (ok, ends) after each chunk
+    (stops at the first rejection)"""
+    from lomond.utf8validator import Utf8Validator
+    out = []
+    for chunks in items:
+        v = Utf8Validator()
+        r = []
+        for c in chunks:
+            ok, ends, _, _ = v.validate(c)
+            r.append((ok, ends))
+            if not ok:
+                break
+        out.append(r)
+    return out
+
+
+def long_chunk_cases(rng, tier):
+    """LONG chunks (the validator may treat them differently from short ones): lengths around 64, 256, 1 KiB, 4 KiB, 64 KiB; the chunk
+    ends after a complete 1/2/3/4-byte character, or 1..3 bytes into a multi-byte character (continued in the next chunk, correctly
+    or not); an invalid byte near the start, in the middle, near the end"""
+    chars = ['a', '\u00e9', '\u20ac', '\U0001f600', '\U0010ffff', '\ud7ff', '\ue000', '\x7f', '\u0080', '\u07ff', '\u0800', '\uffff', '\U00010000']
+    out = []
+    for n in ([60, 255, 1020, 1024, 1030, 4096, 65536] if tier == 'quick' else [60, 255, 1000, 1020, 1023, 1024, 1025, 1030, 2048, 4096, 16384, 65530, 65536, 70000]):
+        for last in chars:
+            enc = last.encode('utf-8')
+            body = ''.join(rng.choice(chars) for _ in range(n)).encode('utf-8')[:n]
+            # repair the cut end of the filler so that it is valid text
+            while body:
+                try:
+                    body.decode('utf-8'); break
+                except UnicodeDecodeError:
+                    body = body[:-1]
+            whole = body + enc
+            out.append([whole])                                     # ends exactly on a complete character
+            for k in range(1, len(enc)):
+                out.append([body + enc[:k], enc[k:] + b'tail'])         # split inside the last character, completed in the next chunk
+                out.append([body + enc[:k], b'A'])                      # ... not completed: invalid
+            out.append([whole, whole])
+            for pos in (1, len(whole) // 2, len(whole) - 2, len(whole) - 5):
+                bad = bytearray(whole); bad[pos] = rng.choice([0xff, 0xc0, 0x80, 0xf8]); out.append([bytes(bad)])
+    return out
+
+
 def text_scenario(rng, payload, nfrag, ncuts, compress_negotiated=False, stop_after=None, ctrl_between=False, compressed=False, empty_final=False, empty_first=False):
     """one text message `payload` in nfrag frames, stream cut into reads; `compressed`: the message is sent compressed (RSV1;
        the fragments cut the COMPRESSED bytes); `empty_final`: an empty final fragment is appended"""
@@ -72,7 +116,7 @@ def text_scenario(rng, payload, nfrag, ncuts, compress_negotiated=False, stop_af
         stream = out
     data = hs + stream
     cuts = coreutil.random_cuts(rng, len(data), ncuts)
-    sc.env = reads(cut(data, cuts))
+    sc.env = reads(coreutil.limit_chunks(cut(data, cuts)))       # a read never returns more than the receive buffer holds
     if stop_after is None:
         sc.env.append(('wait', 1, ('eof',)))
     return sc
@@ -117,7 +161,7 @@ def explore(res, tier, seed, model_ok=True):
     gencheck.run(res, 'C05', tier, seed, model_ok)
     rng = random.Random(seed)
     res.rule = ('exhaustive: 9x256 validator steps and all byte strings of length <= %d on the real Utf8Validator vs model vs RFC 3629 oracle; '
-                'generated: text payloads (valid, and invalid by 7 corruption kinds) x fragmentation x read cuts through the real receive path; '
+                'long chunks (60 bytes .. 64 KiB) ending on / inside every width of character, continued correctly or not, with an invalid byte near start / middle / end: validator vs RFC 3629 oracle; generated: text payloads (valid, and invalid by 7 corruption kinds) x fragmentation x read cuts through the real receive path; '
                 'non-trivial = multi-byte or invalid payload, distinct by (payload, fragmentation, cuts)') % (3 if tier == 'thorough' else 2)
     # 1. exhaustive steps
     steps = real_validator_steps(None)
@@ -172,6 +216,25 @@ def explore(res, tier, seed, model_ok=True):
             want = 'ok ' + '.'.join(str(ord(c)) for c in bs.decode('utf-8'))
             if m != want:
                 res.diffs.append(dict(input='utf8 decode ' + bs.hex(), real=want, model=m))
+    # 2c. long chunks
+    longs = long_chunk_cases(rng, tier)
+    lparts = [longs[i:i + 40] for i in range(0, len(longs), 40)]
+    lres = []
+    for part in runner.parallel_map('props.c05', 'real_validate_chunks', lparts, chunk=1):
+        lres.extend(part)
+    for chunks, r in zip(longs, lres):
+        res.case(('long', len(chunks[0]), hash(tuple(chunks))), nontrivial=True); res.count('long_chunk_validations')
+        acc = b''
+        for c, (ok, ends) in zip(chunks, r):
+            acc += c
+            want_ext, want_wf = refcodec._extendable(acc), refcodec.rfc3629_valid(acc)
+            if ok != want_ext or (ok and ends != want_wf):
+                res.failures.append(dict(cls='validator-verdict', what='validate() on a chunk of %d bytes (total %d) says ok=%s ends=%s, RFC 3629: extendable=%s well-formed=%s' % (
+                    len(c), len(acc), ok, ends, want_ext, want_wf), input=dict(chunks=[x.hex() if len(x) < 3000 else ('%d bytes ending ' % len(x)) + x[-16:].hex() for x in chunks]),
+                    observed=[ok, ends], expected=[want_ext, want_wf]))
+                break
+            if not ok:
+                break
     # 3. message level through the real receive path
     n = 300 if tier == 'quick' else 3000
     scs, meta = [], []
@@ -188,6 +251,19 @@ def explore(res, tier, seed, model_ok=True):
         else:
             scs.append(text_scenario(rng, p, nfrag, ncuts, neg, ctrl_between=cb))
             meta.append((p, 'verdict', neg, cb))
+    # texts larger than the 64 KiB receive buffer arriving in ONE burst (and in a few large reads): valid with multi-byte characters
+    # throughout, and invalid far into the message
+    for size in ((70000, 140000) if tier == 'quick' else (65536, 66000, 70000, 131072, 140000, 300000)):
+        big = ''.join(rng.choice(['a', 'b', ' ', '\u00e9', '\u20ac', '\U0001f600']) for _ in range(size // 2)).encode('utf-8')[:size]
+        while True:
+            try:
+                big.decode('utf-8'); break
+            except UnicodeDecodeError:
+                big = big[:-1]
+        for p_ in (big, big[:40000] + b'\xff' + big[40001:], big[:-1]):
+            for ncuts in (0, 1, 3):
+                scs.append(text_scenario(rng, p_, 1, ncuts, False))
+                meta.append((p_, 'verdict', False, False))
     # texts whose exact decoding is easily lost: leading / inner U+FEFF, NUL, noncharacters, format directives
     for t in ('\ufeff', '\ufeffabc', 'a\ufeffb', '\ufeff\ufeff', '\x00', '\x00a\x00', '\uffff\ufffe', '{}', '{0} %s {x', '%', '\u2028\x85'):
         p_ = t.encode('utf-8')
